@@ -45,7 +45,11 @@ fn paired(base: ScenarioFn, name: &'static str, cfg: &ScenCfg, out: &mut RunOut)
     // leave a world whose tape is the full original one for the driver
     let injected = o3.probes.get("decode_change_injected").copied().unwrap_or(0);
     let desc = |o: &RunOut| -> String { format!("{} observable bytes, {} ops", o.observable.len(), o.ops_checked) };
-    if o1.observable != o2.observable {
+    let tie = |o: &RunOut| o.probes.contains_key("order_dependent_tie_run_ended");
+    if tie(&o1) || tie(&o2) || tie(&o3) {
+        // (client lock-step) a run that ended at an order-dependent tie has a truncated observable
+        out.probe("paired_run_skipped_order_dependent_tie");
+    } else if o1.observable != o2.observable {
         let at = o1.observable.iter().zip(o2.observable.iter()).position(|(a, b)| a != b).unwrap_or(o1.observable.len().min(o2.observable.len()));
         out.violate(
             "C20",
